@@ -24,6 +24,9 @@ CHECKS = {
  "C07": dict(design="§6 C07", technique="deterministic simulation of whole filter-mode processes vs framing/exit-code model",
    text="Whole simulated `fzf --filter` processes (real option parser, Run, reader, matcher or streaming path, printer) with seeded option sets, inputs, delivery cuts and schedules; stdout bytes and exit status compared with a framing model. Interactive part is added by the H-sys scenarios when present.",
    note="Field and ANSI semantics restricted to generator-known simple cases (whitespace fields, whole-word SGR wrappers); display transformation computed with the real (pure, trusted) tokenizer."),
+ "C18": dict(design="§6 C18", technique="deterministic simulation: session/operation histories with restarts (only the file survives) vs list model",
+   text="Seeded sequences of sessions over one real history file (initial content missing/empty/with or without trailing newline/longer than the limit); each session parses --history/--history-size with the real option parser, performs previous/next/edit steps and at most one submit; every returned string and the file bytes after every session are compared with a list-of-strings model.",
+   note="Object level (whole interactive sessions are added by the sys scenarios). No crash-point or disk-fault injection: the property quantifies over histories only."),
  "C13": dict(design="§6 C13", technique="deterministic simulation: loaders/coordinator/matcher interleavings vs sequential filter of frozen snapshots",
    text="1-3 loader tasks push through the real ChunkList while a coordinator snapshots (with/without --tail) and issues Reset requests to the real Matcher.Loop with 1..32 partitions under seeded schedules incl. CPU stalls; every published merger must equal the sequential filter of the frozen input of a request (in request order); frozen copies must stay equal to live snapshots; cache audit; scratch-slab exclusivity.",
    note="Data races finer than synchronisation granularity are outside the deterministic part."),
